@@ -272,6 +272,12 @@ CANARIES = {
             "        tile_bbox = self.grid.tile_bbox(tile.coord, limit=True)\n        query = MapQuery(tile_bbox, self.grid.tile_size, self.grid.srs,")]},
          dict(grid='utm_ll', meta_size=(1, 1), meta_buffer=0, level=1, mode='single')),
     ],
+    'CreateTilesGrouping': [
+        ('meta tiles of one request told apart by their lower left corner only', {'mapproxy.cache.tile': [(
+            "                if meta_tile.bbox not in meta_bboxes:\n                    meta_tiles.append(meta_tile)\n                    meta_bboxes.add(meta_tile.bbox)",
+            "                if meta_tile.bbox[:1] not in meta_bboxes:\n                    meta_tiles.append(meta_tile)\n                    meta_bboxes.add(meta_tile.bbox[:1])")]},
+         dict(grid='utm_ul', meta_size=(3, 2), meta_buffer=0, level=2)),
+    ],
     'MetaTileGeo': [
         ('pattern uses buffers[1] for the top offset', {'mapproxy.grid': [(
             "i*self.grid.tile_size[1] + buffers[3])", "i*self.grid.tile_size[1] + buffers[1])")]},
@@ -305,6 +311,83 @@ CANARIES = {
             "i//self.tile_grid[0]*self.tile_size[1])", "i//self.tile_grid[0]*self.tile_size[0])")]}, dict(tile_size=(256, 512))),
     ],
 }
+
+
+class _EqSet(object):
+    """set() of the module under test for keys that contain solver terms: membership by (symbolic) equality"""
+    def __init__(self, items=()):
+        self.items = []
+        for i in items:
+            self.add(i)
+
+    def __contains__(self, x):
+        for it in self.items:
+            if it == x:           # tuple == tuple: element-wise, forks on symbolic comparisons
+                return True
+        return False
+
+    def add(self, x):
+        if x not in self:
+            self.items.append(x)
+
+    def __len__(self):
+        return len(self.items)
+
+    def __iter__(self):
+        return iter(self.items)
+
+
+class CreateTilesGrouping(MetaHarness):
+    """TileCreator.create_tiles groups the missing tiles of one request by meta tile: one meta-tile request per distinct meta
+    tile -- two tiles of the same meta tile are fetched once, two tiles of different meta tiles are both fetched (none is
+    taken for a duplicate of the other), whatever the zoom level / unit of the grid."""
+    modules = ['mapproxy.grid', 'mapproxy.cache.tile']
+    functions = ['TileCreator.create_tiles', 'MetaGrid.meta_tile', 'MetaGrid.main_tile', 'MetaGrid._meta_bbox']
+
+    @classmethod
+    def build(cls, L, cfg):
+        ctx = MetaHarness.build.__func__(cls, L, cfg)
+        ctx['t'] = L.mods['mapproxy.cache.tile']
+        return ctx
+
+    @classmethod
+    def inputs(cls, ctx, cfg):
+        gs = ctx['G'].grid_sizes[cfg['level']]
+        v = [int_var(n) for n in ('tx1', 'ty1', 'tx2', 'ty2')]
+        assume(AND(v[0] >= 0, v[1] >= 0, v[0] < gs[0], v[1] < gs[1], v[2] >= 0, v[3] >= 0, v[2] < gs[0], v[3] < gs[1]))
+        return dict(a=v[:2], b=v[2:])
+
+    @classmethod
+    def prop(cls, ctx, cfg, a, b):
+        import types
+        t, G, MG = ctx['t'], ctx['G'], ctx['MG']
+        level = cfg['level']
+        t.__dict__['set'] = _EqSet
+        symex.CTX.round_congruence = True      # the bboxes of the two tiles' meta tiles are rounded independently and then compared
+        cr = t.TileCreator.__new__(t.TileCreator)
+        cr.sources = [object()]
+        cr.meta_grid = MG
+        cr.tile_mgr = types.SimpleNamespace(minimize_meta_requests=False)
+        asked = []
+        cr._create_meta_tiles = lambda meta_tiles: asked.extend(meta_tiles) or []
+        cr.create_tiles([t.Tile((a[0], a[1], level)), t.Tile((b[0], b[1], level))])
+        mx, my = MG._meta_size(level)
+        same = AND(a[0] // mx == b[0] // mx, a[1] // my == b[1] // my)
+        if len(asked) == 1:
+            ok = same
+        elif len(asked) == 2:
+            ok = NOT(same)
+        else:
+            return False
+        # each requested tile lies in one of the meta tiles asked for
+        for c in (a, b):
+            hit = False
+            for mt in asked:
+                for m in mt.tiles:
+                    if m is not None:
+                        hit = OR(hit, AND(m[0] == c[0], m[1] == c[1]))
+            ok = AND(ok, hit)
+        return ok
 
 
 class CreatorQueries(MetaHarness):
@@ -420,6 +503,9 @@ def obligations(tier, seed):
         for mode, ms, mb in (('single', (1, 1), 0), ('bulk', (2, 2), 0), ('bulk', (3, 2), 0), ('meta', (2, 2), 10), ('meta', (3, 2), 0)):
             c = dict(grid=gname, seed=seed, level=level, meta_size=list(ms), meta_buffer=mb, mode=mode)
             specs.append(spec(MOD, 'CreatorQueries', 'creator-queries/%s/L%d/%s-m%dx%d' % (gname, level, mode, ms[0], ms[1]), cfg=c, cost=5))
+    for gname, level, ms in (('tiny_ll', 1, (2, 2)), ('utm_ul', 2, (3, 2)), ('geod_ul', 2, (2, 2))) + ((('tiny_ll', 0, (4, 4)), ('frac_ll', 2, (2, 2))) if tier == 'thorough' else ()):
+        specs.append(spec(MOD, 'CreateTilesGrouping', 'create-tiles-one-request-per-meta-tile/%s/L%d/m%dx%d' % (gname, level, ms[0], ms[1]),
+                          cfg=dict(grid=gname, seed=seed, level=level, meta_size=list(ms), meta_buffer=0), cost=10))
     # producing a tile through its meta tile really produces it: any missing tile of the meta tile (not only the main tile) triggers
     # exactly one upstream request that stores all of them (C13 harness, presence flags symbolic, no expiry rule)
     for ra in (False, True):
@@ -431,7 +517,8 @@ def obligations(tier, seed):
     twins = dict(MetaTileGeo=dict(grid='utm_ll', meta_size=[3, 2], meta_buffer=10, level=2),
                  MinimalMetaTile=dict(grid='utm_ul', meta_size=[4, 4], meta_buffer=80, level=3),
                  SplitterCrop=dict(tile_size=[256, 256]), MergerOffsets=dict(tile_size=[256, 256]),
-                 CreatorQueries=dict(grid='utm_ll', level=1, meta_size=[2, 2], meta_buffer=0, mode='bulk'))
+                 CreatorQueries=dict(grid='utm_ll', level=1, meta_size=[2, 2], meta_buffer=0, mode='bulk'),
+                 CreateTilesGrouping=dict(grid='tiny_ll', level=1, meta_size=[2, 2], meta_buffer=0))
     for hname, c in twins.items():
         specs.append(spec(MOD, hname, 'twin/' + hname, kind='witness', cfg=dict(c, seed=seed)))
     for hname, cans in CANARIES.items():
